@@ -195,6 +195,34 @@ theorem driver_tree_is_build (fs : List Flow) :
     build (((fs.zip (loadSkip .empty fs).2).filter (fun p => p.2.isNone)).map (·.1)) = .ok (loadSkip .empty fs).1 :=
   loadSkip_build fs .empty
 
+/-! ### the raw query string -/
+
+/-- Pieces of the query string that `Query()` drops (bad percent escape, `;`, empty piece) do not affect
+    what is read from their well-formed neighbours: the parsed query — hence every presence / value test,
+    `applies`, and the selection — is the same with and without them. -/
+theorem malformed_neighbours_ignored (a bad b : List String) (hbad : ∀ p ∈ bad, parsePair p = none) :
+    parsePieces (a ++ bad ++ b) = parsePieces (a ++ b) := by
+  have : bad.filterMap parsePair = [] := by
+    rw [List.filterMap_eq_nil_iff]; exact hbad
+  simp [parsePieces, List.filterMap_append, this]
+
+/-- … in particular for a transaction: same answer of the model, same verdict of the filter. -/
+theorem malformed_neighbours_same_selection (ft : FTree) (f : Flow) (t : Txn) (a bad b : List String)
+    (hbad : ∀ p ∈ bad, parsePair p = none) :
+    observe ft { t with query := parsePieces (a ++ bad ++ b) } = observe ft { t with query := parsePieces (a ++ b) } ∧
+    applies f { t with query := parsePieces (a ++ bad ++ b) } = applies f { t with query := parsePieces (a ++ b) } := by
+  rw [malformed_neighbours_ignored a bad b hbad]
+  exact ⟨rfl, rfl⟩
+
+/-- what `Query()` drops and what it keeps (the seeds of the generator's odd pieces) -/
+example :
+    parsePair "ref=100%zz" = none ∧ parsePair "%zz=1" = none ∧ parsePair "utm=a;b" = none ∧ parsePair "" = none ∧
+    parsePair "x=%" = none ∧ parsePair "y=%4" = none ∧
+    parsePair "q=books" = some ("q", "books") ∧ parsePair "flag" = some ("flag", "") ∧
+    parsePair "=v" = some ("", "v") ∧ parsePair "a+b=c+d" = some ("a b", "c d") ∧
+    parsePair "%6b=%76" = some ("k", "v") ∧ parsePair "k=v=w" = some ("k", "v=w") ∧
+    parsePieces ["q=books", "ref=100%zz", "%zz=1", "k=v"] = [("q", "books"), ("k", "v")] := by decide
+
 /-! ### the open class: F03e -/
 
 /-- F03e.  `a.com/*` is selected for the HOST `a.com.evil.org`. -/
